@@ -4,7 +4,8 @@
    operation (value returned by a read, target.demand, supply/utilisation/allocation read through
    the decorator; every number with its int/float tag, exact rational value or infinity).
    A history ends early when a NaN shows up (outcome ENaN) or an exception is raised.
-   The model must reproduce all of it exactly. *)
+   The model must reproduce all of it exactly (values and outcomes for the verdict; types in a second,
+   informational pass). *)
 From Coq Require Import ZArith QArith List Bool.
 From Cobald Require Import kit.QKit kit.PyNum model.Standardiser.
 Import ListNotations.
@@ -24,17 +25,20 @@ Record case := mkCase {
   k_sane : bool                (* false: the implementation did something the model has no outcome for *)
 }.
 
-Definition opt_num_eqb (a b : option num) : bool :=
+(* equality of python numbers by value (10 == 10.0, as python's `==`) / by value and type *)
+Definition val_eqb (a b : num) : bool := feqb (val a) (val b).
+
+Definition opt_eqb (eqn : num -> num -> bool) (a b : option num) : bool :=
   match a, b with
   | None, None => true
-  | Some x, Some y => num_eqb x y
+  | Some x, Some y => eqn x y
   | _, _ => false
   end.
 
-Definition obs_eqb (a b : obs) : bool :=
-  opt_num_eqb (o_read a) (o_read b) && num_eqb (o_tdemand a) (o_tdemand b)
-  && num_eqb (o_supply a) (o_supply b) && num_eqb (o_util a) (o_util b)
-  && num_eqb (o_alloc a) (o_alloc b).
+Definition obs_eqb (eqn : num -> num -> bool) (a b : obs) : bool :=
+  opt_eqb eqn (o_read a) (o_read b) && eqn (o_tdemand a) (o_tdemand b)
+  && eqn (o_supply a) (o_supply b) && eqn (o_util a) (o_util b)
+  && eqn (o_alloc a) (o_alloc b).
 
 Fixpoint all2 {A} (f : A -> A -> bool) (a b : list A) : bool :=
   match a, b with
@@ -50,15 +54,23 @@ Definition opt_err_eqb (a b : option err) : bool :=
   | _, _ => false
   end.
 
-Definition hist_ok (st0 : std) (h : history) : bool :=
+Definition hist_ok (eqn : num -> num -> bool) (st0 : std) (h : history) : bool :=
   let (l, e) := trace st0 (h_ops h) in
-  all2 obs_eqb l (h_obs h) && opt_err_eqb e (h_end h).
+  all2 (obs_eqb eqn) l (h_obs h) && opt_err_eqb e (h_end h).
 
-Definition check (c : case) : bool :=
+Definition check_with (eqn : num -> num -> bool) (c : case) : bool :=
   k_sane c &&
   match construct (k_par c) (k_pool c) with
   | Err EValue => negb (k_accepted c)
   | Err _ => false
   | Ok st0 =>
-      k_accepted c && obs_eqb (observe None st0) (k_init c) && forallb (hist_ok st0) (k_hists c)
+      k_accepted c && obs_eqb eqn (observe None st0) (k_init c) && forallb (hist_ok eqn st0) (k_hists c)
   end.
+
+(* the verdict: every observed VALUE (and every outcome) agrees.  The property speaks about values; a
+   rewrite of the code that returns 10.0 where it returned 10 keeps it. *)
+Definition check : case -> bool := check_with val_eqb.
+
+(* stricter, reported but not part of the verdict: the int/float type of every observed number agrees too
+   (validates the typing rules of kit/PyNum.v) *)
+Definition check_tags : case -> bool := check_with num_eqb.
